@@ -31,6 +31,9 @@ CORPUS = [
     ["init be tl 8", "match", "write x01", "write x02", "dup 0", "dup 1", "deliver 0", "deliver 0", "forgehb 1 50 1000 f l", "flush",
      "forgehb 0 0 1001 F l", "write x03", "dup 0", "flush"],
     ["init be vol 8", "match", "write p20.3", "write x0102", "deliver 1", "forgehb 5 9 7 f l", "flush", "forgehb 1 2 8 F L", "write x03", "flush"],
+    # a forged HEARTBEAT whose first lies below a first_available_seq_num the reader had raised itself (jump to sn 2), with an old
+    # DATA and a copy of a delivered DATA still in flight: neither may be delivered afterwards
+    ["init be vol 8", "match", "write x01", "write x02", "write x03", "deliver 1", "dup 1", "deliver 1", "forgehb 1 3 9 F l", "flush"],
     # D42 exemplar (loss, not a C02 violation): the sample after a gap is never sent to a best-effort reader
     ["init be tl 8", "write x01", "write x02", "write x03", "remove 2", "match", "tick 1", "flush"],
 ]
@@ -60,6 +63,11 @@ def run(ctx):
             pos = r.range(2, len(lines))
             cnt = cnt + r.range(1, 500) if r.range(0, 4) else r.range(0, 3)
             lines.insert(pos, f"forgehb {r.range(0, 12)} {r.range(0, 40)} {cnt} {r.choice(['F', 'f'])} {r.choice(['L', 'l'])}")
+            if r.range(0, 1):
+                # keep copies of earlier datagrams in flight and deliver everything right after the forged HEARTBEAT
+                lines.insert(pos + 1, "flush")
+                for _ in range(r.range(1, 3)):
+                    lines.insert(r.range(2, pos), f"dup {r.range(0, 7)}")
         cases.append(Case(lines, {"rel": False}))
     count_ops(ctx, cases)
     ctx.differential(ENGINE, cases, nontrivial=nontrivial_system, oracle=oracle)
